@@ -8,13 +8,13 @@ TRUSTED = [
 ]
 UNVERIFIED = [
     'non-unit exponents (rust_decimal branch of apply_exponent_factor): every contract here requires a whole-unit exponent, as the quantifier of the property does',
-    '"take the worse of real and virtual impact": SwapMarketExt::swap_impact_value IS under contract (verus/C03_worse.rs: PoolDelta::price_impact and the virtual inventory\'s pool_delta_with_values as deterministic uninterpreted functions - the formula is proved in verus/C03.rs); PositionExt::position_price_impact (same pattern, with a nested helper type and the cancel / offset of the virtual open interest) and the construction of the PoolDelta from pool amounts and prices (PoolDelta::try_new / try_from_delta_amounts) are not under contract',
+    '"take the worse of real and virtual impact": SwapMarketExt::swap_impact_value AND PositionExt::position_price_impact (with its nested ReassignedValues::new) ARE under contract (verus/C03_worse.rs); there PoolDelta::price_impact, the pool delta a balance builds for given usd deltas (BalanceExt::pool_delta_with_values), Pool::checked_cancel_amounts and Pool::checked_apply_delta are deterministic uninterpreted functions - the impact formula is proved in verus/C03.rs; the construction of the PoolDelta from pool amounts and prices (PoolDelta::try_new / try_from_delta_amounts) is not under contract',
     'deposits: the same PoolDelta::price_impact is used; the deposit action that calls it is not covered',
 ]
 ASSUMPTIONS = []
 MANIFEST = dict(engine='verus',
-    technique='Verus contracts on SwapMarketExt::swap_impact_value (which of the real and the virtual impact is charged) and on PriceImpactParams::adjusted_factors and PoolDelta::{price_impact, price_impact_for_same_side_rebalance, price_impact_for_cross_over_rebalance, is_same_side_rebalance, diff values} extracted from /repo each run, over the C01 contract of apply_factors; monotonicity of the impact value by induction over pow_fixed; round-trip lemmas; native replay with a big-integer oracle',
-    text='Which impact a swap / deposit is charged: the real pool\'s impact, replaced by the virtual inventory\'s (same usd deltas, prices and parameters) exactly when the real one is negative, the caller did not opt out, a virtual inventory exists and its impact is MORE negative - never better than the real pool\'s. '
+    technique='Verus contracts on SwapMarketExt::swap_impact_value and PositionExt::position_price_impact (which of the real and the virtual impact is charged) and on PriceImpactParams::adjusted_factors and PoolDelta::{price_impact, price_impact_for_same_side_rebalance, price_impact_for_cross_over_rebalance, is_same_side_rebalance, diff values} extracted from /repo each run, over the C01 contract of apply_factors; monotonicity of the impact value by induction over pow_fixed; round-trip lemmas; native replay with a big-integer oracle',
+    text='Which impact a swap / deposit is charged: the real pool\'s impact, replaced by the virtual inventory\'s (same usd deltas, prices and parameters) exactly when the real one is negative, the caller did not opt out, a virtual inventory exists and its impact is MORE negative - never better than the real pool\'s; positions: the same rule over the open interest, with the virtual inventory netted and, for a decrease, both its sides shifted up by |size delta|. '
          + 'Deductive proof, unbounded over all pool values, factors and whole-unit exponents: the positive factor used never exceeds the negative one; price_impact returns exactly the same-side or the cross-over formula and tags the change Improved / Worsened / Unchanged by the imbalance; a change that worsens (or keeps) the imbalance never receives a positive impact (both formulas; the cross-over case by monotonicity of floor(v^e f / UNIT) in v and f); an improving change that keeps the heavy side never receives a negative impact; a change that flips the heavy side followed by its exact reverse totals <= 0 exactly; on one side the total is <= 1 unit (10^-20 USD). TWO KNOWN FINDINGS, each with a witness proved by computation and reproduced natively: an improving change that flips the heavy side can receive a negative impact; a same-side round trip can total +1 unit.',
     note='Known findings C03::finding_improved_cross_over_is_negative and C03::finding_same_side_round_trip_gains_one_unit (by design / rounding, not repaired). The worse-of-real-and-virtual selection is not covered.')
 
